@@ -98,6 +98,7 @@ func main() {
 	verbose := fs.Bool("v", false, "verbose")
 	workers := fs.Int("j", runtime.NumCPU(), "workers")
 	mode := fs.String("mode", "", "known-finding mode (debug)")
+	maxViol := fs.Int("maxviol", 3, "stop a harness after this many violations")
 	var pos []string
 	args := os.Args[2:]
 	for len(args) > 0 {
@@ -122,6 +123,7 @@ func main() {
 	case "run":
 		w := mustLoad(root, *repo, *tier, *workers, *verbose)
 		w.stepBudget = 5_000_000
+		w.maxViol = *maxViol
 		for _, h := range pos {
 			r := w.runHarness(h, *mode, time.Hour)
 			printResult(r)
